@@ -23,7 +23,7 @@ def g_stencil(s, P):
         k = s.randint(1, 5)
         eps = s.choice([1e-4, 3e-4, 1e-3, 1e-2, 3e-2, 1e-1]) if s.chance(0.7) else s.loguniform(1e-4, 1e-1)
         zmask = [s.choice([0, 0, 0, 1, 2, 3]) for _ in range(k)]
-        op = s.choice(['C19.stencil_hess', 'C19.stencil_grad'])
+        op = s.choice(['C19.stencil_hess', 'C19.stencil_grad', 'C19.stencil_cubic'])
         cont = s.choice(['list', 'tuple', 'array', 'array', 'intlist', 'intarray'])
         if op == 'C19.stencil_grad' and s.chance(0.25):
             P.add(op, s.randint(0, 50), k, eps, zmask, cont, True)
@@ -114,7 +114,8 @@ def g_perm(s, P):
 
 def g_chi2(s, P):
     for _ in range(s.randint(1, 3)):
-        w = s.choice([[0, 1], [0.5, 0.5], [0.25, 0.5, 0.25], [0.125, 0.375, 0.375, 0.125], [0.5, 0.6], [1.0, 0.0]])
+        w = s.choice([[0, 1], [0.5, 0.5], [0.25, 0.5, 0.25], [0.125, 0.375, 0.375, 0.125], [0.5, 0.6], [1.0, 0.0],
+                      [0, 0, 1], [0.5, 0, 0.5], [0, 0.5, 0, 0.5], [0.3, 0, 0, 0.7], [0.25, 0.25, 0.5, 0]])
         xs = [s.loguniform(1e-3, 30) if s.chance(0.85) else -s.loguniform(1e-3, 3) for _ in range(s.randint(1, 4))]
         P.add('C19.chi2', xs, w, s.choice(['scalar', 'array', 'list', 'int', 'intlist', 'intarray']))
     return P
